@@ -1,12 +1,13 @@
 import Driver.Util
 import Lattigo.Model.RGSW
+import Lattigo.Model.BlindRot
 
 /-
   Line-protocol handler of property C20 (RGSW external products, blind rotation).
   Every line is self-contained: `key=value` tokens after the op name.
 -/
 namespace Driver.C20
-open Driver Lattigo Lattigo.RGSW
+open Driver Lattigo Lattigo.RGSW Lattigo.RGSW.BlindRot
 
 def parsePolys? (s : String) : Option (List (List (List Nat))) :=
   if s == "-" then some [] else (s.splitOn "/").mapM parseMat?
@@ -111,6 +112,83 @@ def hEp32 (toks : List String) : Option String := do
   let o1 := (List.zip (RPoly.transpose r1) cT).map fun (rs, cs) => slot32 q mrc rs cs
   pure (showVec o0 ++ "|" ++ showVec o1)
 
+/-! ### blind rotation -/
+
+def showStep : Step → String
+  | Step.aut g => "a" ++ toString g
+  | Step.mul j => "m" ++ toString j
+
+/-- the requests the logging key set sees: automorphisms by `1` need no key -/
+def showSched (st : List Step) : String :=
+  let vis := st.filter fun x => match x with | Step.aut g => g != 1 | _ => true
+  if vis.isEmpty then "-" else ",".intercalate (vis.map showStep)
+
+def dedupSorted (l : List Nat) : List Nat :=
+  (l.toArray.qsort (· < ·)).toList.eraseDups
+
+def hKeyset (toks : List String) : Option String := do
+  let n ← (kv? toks "n") >>= parseNat?
+  let nl ← (kv? toks "nl") >>= parseNat?
+  let els := ((List.range windowSize).map fun i => galEl n (i + 1)) ++ [2 * n - galoisGen]
+  pure (showVec (dedupSorted els) ++ "|" ++ toString nl)
+
+/-- coefficients in `[0, Q)` of an LWE-ring polynomial given by canonical rows -/
+def crtCoeffs (qs : List Nat) (rows : List (List Nat)) : List Nat :=
+  (RPoly.transpose rows).map fun col => RPoly.crt qs col
+
+structure LweIn where
+  n : Nat
+  masks : List (Nat × List Nat)
+  bs : List Nat
+
+def getLwe (toks : List String) : Option LweIn := do
+  let n ← (kv? toks "n") >>= parseNat?
+  let ql ← (kv? toks "ql") >>= parseVec?
+  let c0 ← (kv? toks "c0") >>= parseMat?
+  let c1 ← (kv? toks "c1") >>= parseMat?
+  let idx ← (kv? toks "idx") >>= parseVec?
+  let Q := RPoly.prod ql
+  let a0 := prepMask Q n (crtCoeffs ql c1)
+  let b := prepB Q n (crtCoeffs ql c0)
+  pure { n := n, masks := slotMasks n a0 idx, bs := b }
+
+def hSched (toks : List String) : Option String := do
+  let l ← getLwe toks
+  let outs := l.masks.map fun (_, a) => if maskOk a then showSched (coreSchedule l.n a) else "panic"
+  pure ("|".intercalate outs)
+
+def hTestPoly (toks : List String) : Option String := do
+  let n ← (kv? toks "n") >>= parseNat?
+  let q ← (kv? toks "Q") >>= parseVec?
+  let scale ← (kv? toks "scale") >>= parseNat?
+  let vals ← (kv? toks "vals") >>= parseVec?
+  let sc := Float.ofBits scale.toUInt64
+  let _ := n
+  pure (showMat (q.map fun qi => vals.map fun v => scaleUp (Float.ofBits v.toUInt64) sc qi % qi))
+
+def getKeyList (toks : List String) (qs : List Nat) (i : Nat) : Option (List (RPoly × RPoly)) := do
+  let k0 ← (kv? toks ("k" ++ toString i ++ "0")) >>= parsePolys?
+  let k1 ← (kv? toks ("k" ++ toString i ++ "1")) >>= parsePolys?
+  pure ((k0.zip k1).map fun (a, b) => (mkPoly qs a, mkPoly qs b))
+
+def hEval (toks : List String) : Option String := do
+  let p ← getPar toks
+  let l ← getLwe toks
+  let f ← (kv? toks "f") >>= parseMat?
+  let gk ← (kv? toks "gk") >>= parseVec?
+  let nb ← (kv? toks "nb") >>= parseNat?
+  let tie ← (kv? toks "tie") >>= parseVec?
+  let gks ← (List.range gk.length).mapM fun i => do
+    let k ← getKeyList toks p.qsQP i
+    pure (gk.getD i 0, k)
+  let brk ← (List.range nb).mapM fun j => getRGSW toks ("b" ++ toString j ++ "_") p.qsQP
+  let F := mkPoly p.qsQ f
+  let outs := tie.map fun pos =>
+    match l.masks[pos]? with
+    | some (idx, a) => showCt (evalSlot p gks brk F a (l.bs.getD idx 0))
+    | none => "bad-slot"
+  pure ("|".intercalate outs)
+
 def handle (toks : List String) : String :=
   let r : Option String :=
     match toks with
@@ -123,6 +201,10 @@ def handle (toks : List String) : String :=
     | "ep32raw" :: rest => hEp32 rest
     | "newplaintext_badtype" :: _ => some "err"
     | "addlazy_badtype" :: _ => some "panic"
+    | "br_keyset" :: rest => hKeyset rest
+    | "br_sched" :: rest => hSched rest
+    | "testpoly" :: rest => hTestPoly rest
+    | "br_eval" :: rest => hEval rest
     | _ => none
   r.getD badOp
 
